@@ -1013,8 +1013,9 @@ class Generator:
             manifest['lease'] = rng.choice(['1h', '12h', '1d', '3d', '20d'])
         if cfg['group_names'] and rng.random() < 0.4:
             manifest['identity_group'] = rng.choice(cfg['group_names'])
-        if cfg['traits'] and rng.random() < 0.25:
-            manifest['traits'] = [rng.choice(cfg['traits'] + ['nosuch'])]
+        pool = cfg['traits'] + cfg.get('node_traits', [])
+        if pool and rng.random() < 0.25:
+            manifest['traits'] = [rng.choice(pool + ['nosuch'])]
         if rng.random() < 0.1:
             manifest['schedule_once'] = True
         if rng.random() < 0.3:
@@ -1211,6 +1212,9 @@ def server_spec(rng, cfg, name):
     racks = [r for _p, rs in cfg['topology'] for r in rs]
     mem = rng.randint(cfg['cap_lo'], cfg['cap_hi']) * 256
     traits = [t for t in cfg['traits'] if rng.random() < 0.4]
+    # a trait the node reports itself, not listed in the cell's /traits
+    if cfg.get('node_traits') and rng.random() < 0.4:
+        traits.append(rng.choice(cfg['node_traits']))
     return {'name': name, 'parent': rng.choice(racks),
             'partition': rng.choice(cfg['partitions']),
             'memory': rng.choice(MEM_SPELL)(mem),
@@ -1266,6 +1270,7 @@ def make_config(prop, tier, rng):
     nparts = rng.choice([1, 2, 2])
     cfg['partitions'] = ['_default'] + ['part%d' % i for i in range(1, nparts)]
     cfg['traits'] = ['t%d' % i for i in range(rng.choice([0, 1, 2]))]
+    cfg['node_traits'] = ['nt%d' % i for i in range(rng.choice([0, 1, 1, 2]))]
     cfg['proids'] = ['proid%d' % i for i in range(rng.randint(1, 3))]
     cfg['cap_lo'] = rng.choice([2, 4])
     cfg['cap_hi'] = rng.choice([6, 10])
